@@ -287,6 +287,19 @@ Snapshot(n) ==
   /\ res' = [st |-> "ok", len |-> Len(SnapshotOf(chain, n))]
   /\ UNCHANGED <<chain, canon, pOld, pc, pk, nupd, nenv>>
 
+(* ---- readers: Synchronizer.PreConfirmedChain() (sync/sync.go): the view of the chain above the
+   CURRENT head; when the storage has nothing for head+1 the reader gets a one-block view holding
+   an empty placeholder block (MakeEmptyPreConfirmedForParent + NewChain) ---- *)
+PlaceholderSlot(n) == [num |-> n, id |-> Blank, txs |-> <<>>, cls |-> {}]
+ReaderChain ==
+  /\ Len(views) < MaxViews
+  /\ LET sn == SnapshotOf(chain, CHead + 1)
+         sl == IF Len(sn) > 0 THEN sn ELSE <<PlaceholderSlot(CHead + 1)>> IN
+     /\ views' = Append(views, [asked |-> CHead + 1, slots |-> sl])
+     /\ res' = [st |-> "ok", len |-> Len(sl), fallback |-> (Len(sn) = 0)]
+  /\ act' = [name |-> "ReaderChain"]
+  /\ UNCHANGED <<chain, canon, pOld, pc, pk, nupd, nenv>>
+
 (* ---- canonical head ---- *)
 HeadAdvance(v) ==
   /\ CHead < MaxHead
@@ -431,6 +444,7 @@ StorageNext ==
 
 EnvNext ==
   \/ \E n \in 1..(MaxHead + 1) : Snapshot(n)
+  \/ ReaderChain
   \/ \E v \in Variants : HeadAdvance(v)
   \/ HeadRevert
 
@@ -443,7 +457,7 @@ Next == StorageNext \/ EnvNext
 NextNamed ==
   \/ BootstrapAny \/ ExtendAny \/ ReplaceSlotAny \/ PreserveSlotAny \/ RejectedFullAny
   \/ DeltaAny \/ RejectedDeltaAny \/ NoChangeAny \/ RejectedNoChangeAny \/ AdvanceToAny
-  \/ SnapshotAny \/ HeadAdvanceAny \/ HeadRevert
+  \/ SnapshotAny \/ ReaderChain \/ HeadAdvanceAny \/ HeadRevert
 NextPoller == PollerNext \/ EnvNext
 
 Spec == Init /\ [][Next]_vars
@@ -506,8 +520,10 @@ LookupExact == \A i \in 1..Len(views) : ViewLookupExact(views[i])
    (view, later canonical chain) pair without carrying the views in the state. *)
 PotentialView(n) == [asked |-> n, slots |-> SnapshotOf(chain, n)]
 EveryPotentialViewOK ==
-  \A n \in 1..(MaxHead + MaxSlots + 1) :
-    LET v == PotentialView(n) IN ViewAligned(v) /\ ViewOverlayCorrect(v) /\ ViewLookupExact(v)
+  /\ \A n \in 1..(MaxHead + MaxSlots + 1) :
+       LET v == PotentialView(n) IN ViewAligned(v) /\ ViewOverlayCorrect(v) /\ ViewLookupExact(v)
+  /\ LET v == [asked |-> CHead + 1, slots |-> <<PlaceholderSlot(CHead + 1)>>] IN
+     ViewAligned(v) /\ ViewOverlayCorrect(v) /\ ViewLookupExact(v)
 
 (* after the poller realigned (every tick starts with AdvanceTo(head+1)) the chain is empty or
    starts at the slot the tick expects; hence no poller apply is ever rejected as misaligned *)
